@@ -101,6 +101,14 @@ func RunProperty(spec *PropertySpec, opt CheckOptions) int {
 		return 2
 	}
 	e.Tier = tier
+	e.KnownIDs = map[string]bool{}
+	if kf0, _ := LoadKnownFindings(filepath.Join(opt.Verif, "KNOWN_FINDINGS.txt")); kf0 != nil {
+		for _, k := range kf0 {
+			if k.Property == spec.ID && k.Status == "known" {
+				e.KnownIDs[k.Obligation] = true
+			}
+		}
+	}
 	e.PreemptBound = spec.PreemptQ
 	if tier == 1 {
 		e.PreemptBound = spec.PreemptT
@@ -142,7 +150,10 @@ func RunProperty(spec *PropertySpec, opt CheckOptions) int {
 		for k, m := range h.EndMsgs {
 			rep.Notes[k] = m
 		}
-		for _, k := range []string{"unsupported", "unknown", "budget", "bound", "engine-bug"} {
+		for _, k := range []string{"unsupported", "unknown", "budget", "bound", "engine-bug", "fatal"} {
+			if k == "fatal" {
+				continue // reported as a violation
+			}
 			if h.Ends[k] > 0 {
 				problems = append(problems, fmt.Sprintf("%s: %d path(s) ended as %s: %s", n, h.Ends[k], k, h.EndMsgs[k]))
 			}
@@ -363,7 +374,11 @@ func writeEvidence(spec *PropertySpec, opt CheckOptions, e *Engine, runs []*Harn
 		"wall_s":     wall.Seconds(),
 		"violations": 0,
 	}
-	st := &evidenceState{path: filepath.Join(opt.Verif, "evidence", spec.ID+".json"), doc: doc, totalPaths: states, totalObl: obl}
+	evDir := filepath.Join(opt.Verif, "evidence")
+	if d := os.Getenv("VERIF_EVIDENCE_DIR"); d != "" {
+		evDir = d // self-tests against scratch copies must not overwrite the evidence of /repo
+	}
+	st := &evidenceState{path: filepath.Join(evDir, spec.ID+".json"), doc: doc, totalPaths: states, totalObl: obl}
 	st.flush()
 	return st
 }
